@@ -239,6 +239,40 @@ func runC06(c *fw.Case) (o fw.Outcome) {
 				return
 			}
 		}
+		// Somebody else's FAILED attempt in between (one history in three): another UE context whose selected algorithm the
+		// library does not implement (128-NIA3 / 128-NEA3, reserved identities) tries to send and is refused. Whatever that
+		// call returns, this context's next message is still its n-th.
+		if c.Idx%3 == 1 && s > 0 && r.Intn(6) == 0 {
+			other := tglib.NewRanUeContext("imsi-"+digits(r, 15), int64(r.Intn(1000)), uint8(pick(r, 0, 1, 2, 3, 3, 5, 7)), uint8(pick(r, 3, 3, 4, 7, 1, 2)))
+			if other.IntegrityAlg <= 2 {
+				other.CipheringAlg = uint8(pick(r, 3, 3, 5, 6, 7))
+			}
+			copy(other.KnasEnc[:], rbytes(r, 16))
+			copy(other.KnasInt[:], rbytes(r, 16))
+			fplain, _ := plainUplink(r)
+			var ferr error
+			func() {
+				defer func() {
+					if rec := recover(); rec != nil {
+						ferr = fmt.Errorf("panic: %v", rec)
+					}
+				}()
+				if r.Intn(2) == 0 {
+					m := nas.NewMessage()
+					if m.PlainNasDecode(&fplain) == nil {
+						m.SecurityHeader = nas.SecurityHeader{ProtocolDiscriminator: 0x7e, SecurityHeaderType: 2}
+						_, ferr = tglib.NASEncode(other, m, true, false)
+					}
+				} else {
+					_, ferr = tglib.EncodeNasPduWithSecurity(other, fplain, 2, true, false)
+				}
+			}()
+			o.Count("foreign_failed_attempts", 1)
+			if ferr != nil {
+				o.Count("foreign_attempts_refused", 1)
+			}
+			trace = append(trace, fmt.Sprintf("(other UE NIA%d/NEA%d: %v)", other.IntegrityAlg, other.CipheringAlg, ferr != nil))
+		}
 		plain, kind := plainUplink(r)
 		// reset profile (by case index): frequent new contexts, rare ones (the 8-bit SQN wraps several times in between),
 		// or none at all (the only way to walk across the 2^24 wrap)
